@@ -44,6 +44,10 @@ def operand(shape, k):
         return "%s+%d" % (VARS[k], k + 1)
     if shape == "par":
         return "(%s)*2" % VARS[k]
+    if shape == "neg":
+        return "-%s" % VARS[k]
+    if shape == "not":
+        return "NOT %s" % VARS[k]
     return "INT(%s)+%d" % (VARS[k], k)      # conv
 
 
@@ -114,6 +118,10 @@ def main():
             c = ["var"] * n
             c[k] = "par"
             combos.append(tuple(c))
+            for sh in ("neg", "not"):
+                c = ["var"] * n
+                c[k] = sh
+                combos.append(tuple(c))
         if thorough:
             allc = list(itertools.product(["lit", "var", "exp", "conv"], repeat=n))
             combos += gen.sample(rng, allc, 60)
@@ -136,7 +144,9 @@ def main():
         st = instantiate(form, ["var"] * nslots(form), "var")
         for tag, lines in (("then-next-statement", [first, "10 " + st + " :Z=1"]), ("then-next-line", [first, "10 " + st, "20 Z=1:Y=2"]),
                            ("in-THEN-arm", [first, "10 IF A=11 THEN Z=1 ELSE " + st, "20 Y=2"]), ("in-ELSE-and-THEN-arms", [first, "10 IF A=20 THEN " + st + " ELSE " + st, "20 Y=2"]),
-                           ("in-loop", [first, "10 FOR I=1 TO 2:" + st + ":NEXT:Y=2"])):
+                           ("in-loop", [first, "10 FOR I=1 TO 2:" + st + ":NEXT:Y=2"]),
+                           ("after-assignment-to-its-operands", [first, "10 A=A+1:B=B+2:C=C+3:D=D+1:" + instantiate(form, ["conv"] * nslots(form), "conv")]),
+                           ("as-jump-target", [first, "10 GOTO 30", "20 Z=1", "30 " + instantiate(form, ["conv"] * nslots(form), "conv")])):
             plan.append({"lines": lines, "opts": {"add_standard_prefix": len(plan) % 3 == 0, "initialize_vars": bool(len(plan) % 2)},
                          "scripts": scripts(), "fuel": 160, "tag": form, "prefix": len(plan) % 3 == 0})
     rep.count("forms", len(FORMS))
